@@ -207,6 +207,16 @@ func TestC18(t *testing.T) {
 			slice.Mode = 3
 		}
 		mode := rapid.IntRange(0, 2).Draw(rt, "mode") // 0 error, 1 wounds raw, 2 wounds aggregated
+		// "tail only": what is written is the short last block of the signed file and nothing else
+		// (every byte of it is signed content, one or more positions too early); error mode, plain
+		// writes, and the writer is closed twice
+		tailOnly := false
+		if sbl := blocksOf(signed); spill < 0 && !bigCase && len(sbl) >= 2 && len(sbl[len(sbl)-1]) < BlockSize && rapid.IntRange(0, 11).Draw(rt, "tailonly") == 0 {
+			tailOnly = true
+			mode = 0
+			written, mdesc = signed[(len(sbl)-1)*BlockSize:], "the short last block of the signed content, alone"
+			Ev.Probe("short_last_block_written_alone_and_closed_twice")
+		}
 		spec := drawSched(rt)
 
 		wb, sb := blocksOf(written), blocksOf(signed)
@@ -221,7 +231,7 @@ func TestC18(t *testing.T) {
 		setup := fmt.Sprintf("signed %d B (%d blocks), written %d B: %s; slicing %s; mode %d; first differing block %d", len(signed), len(sb), len(written), mdesc, slicerDesc(slice), mode, firstBad)
 
 		keepWriting := rapid.Bool().Draw(rt, "keepwriting")
-		if mode == 0 && nfiles >= 2 && rapid.IntRange(0, 3).Draw(rt, "twowriters") == 0 {
+		if !tailOnly && mode == 0 && nfiles >= 2 && rapid.IntRange(0, 3).Draw(rt, "twowriters") == 0 {
 			// two writers of the same pool open at once (lake.WritablePool allows it), fed alternately
 			// with the signed content of their files: both must pass intact
 			vp := &pwr.ValidatingPool{Pool: inner, Container: si.Container, Signature: si}
@@ -304,7 +314,7 @@ func TestC18(t *testing.T) {
 			})
 			return
 		}
-		if mode == 0 && rapid.IntRange(0, 3).Draw(rt, "viacopy") == 0 {
+		if !tailOnly && mode == 0 && rapid.IntRange(0, 3).Draw(rt, "viacopy") == 0 {
 			// the data is fed with io.Copy from a reader (which uses the writer's ReadFrom if it has
 			// one) that may return short reads and its last bytes together with io.EOF
 			vp := &pwr.ValidatingPool{Pool: inner, Container: si.Container, Signature: si}
@@ -387,7 +397,7 @@ func TestC18(t *testing.T) {
 				off = end
 			}
 			cerr := w.Close()
-			if rapid.Bool().Draw(rt, "closeagain") {
+			if rapid.Bool().Draw(rt, "closeagain") || tailOnly {
 				// the usual "defer w.Close()" after an explicit Close: whatever the first Close refused
 				// stays refused, whatever it delivered is not delivered again
 				if p := Recover(func() { w.Close() }); p != "" {
